@@ -77,6 +77,13 @@ def forms(n, S, rng):
         out.append(("g_xor_const", f"def g(a: Qint[{n}]) -> Qint[{n}]:\n    return a ^ {c}\n", S[0] ^ c, f"Qint{n}"))
         if n in (2, 4):
             out.append(("g_add_const", f"def g(a: Qint[{n}]) -> Qint[{n}]:\n    return a + {c}\n", (S[0] + c) % N, f"Qint{n}"))
+        # the target value written as a typed constant: of the return type, of a narrower type that holds it, of a wider type
+        tgt = S[0] ^ c
+        out.append(("g_typed_same", f"def g(a: Qint[{n}]) -> Qint[{n}]:\n    return a ^ {c}\n", ["Qint", n, tgt], f"Qint{n}"))
+        narrower = [w for w in (2, 3, 4, 5) if w < n and tgt < (1 << w)]
+        if narrower and tgt > 0:
+            out.append(("g_typed_narrow", f"def g(a: Qint[{n}]) -> Qint[{n}]:\n    return a ^ {c}\n", ["Qint", narrower[0], tgt], f"Qint{n}"))
+        out.append(("g_typed_wide", f"def g(a: Qint[{n}]) -> Qint[{n}]:\n    return a ^ {c}\n", ["Qint", 8, tgt], f"Qint{n}"))
     return out
 
 
@@ -148,6 +155,11 @@ def check(case):
                 orc_pred = hpred if hstat in ("wrong", "dirty") else None
                 orc_bad = hstat in ("wrong", "dirty")
             else:
+                if isinstance(y, list):
+                    from qlasskit import types as _T
+
+                    y = getattr(_T, f"Qint{y[1]}")(y[2])
+                    cnt["typed_targets"] = cnt.get("typed_targets", 0) + 1
                 alg = Grover(qf, y, n_matching=M)
                 # the equality oracle built by oraclize is the black box actually used
                 from . import compilecheck as CC
